@@ -43,6 +43,7 @@ func runC20(p *core.Program, r *core.Report) {
 	c20R4(p, r, infl)
 	c20R2(p, r)
 	c20R5(p, r, infl)
+	c20R6(p, r)
 	// determinism: no order source in the inflector packages
 	n := 0
 	for _, f := range p.Funcs() {
@@ -768,5 +769,74 @@ func c20R5(p *core.Program, r *core.Report, infl *core.Func) {
 	}
 	if n == 0 {
 		r.Anchor(rule, "wrappers between Pluralize/Singularize and (*Rule).inflected")
+	}
+}
+
+// c20R6: the memo of a rule maps an input to what this rule computes for this input. Every write into a rule's
+// sync.Map goes through the method's own receiver, is keyed by the method's own argument, and stores (a thunk of) a
+// call of a method of the same receiver on the same argument - never a value worked out elsewhere, for another key or
+// for another rule (such an entry makes the answer depend on which calls came before).
+func c20R6(p *core.Program, r *core.Report) {
+	const rule = "R6"
+	r.Floor(rule, 1)
+	n := 0
+	for _, f := range p.Funcs() {
+		rel := core.RelPkg(f.Pkg.PkgPath)
+		if rel != "pkg/inflector/internal" && rel != "pkg/inflector" {
+			continue
+		}
+		info := f.Info()
+		root := f.Root()
+		for _, c := range core.Calls(f.Body, true) {
+			if !mutatingSyncMethods[core.CalleeName(info, c)] || !strings.HasPrefix(core.CalleeName(info, c), "(*sync.Map)") {
+				continue
+			}
+			n++
+			construct := "write into a memo: " + core.ExprStr(c.Fun)
+			if root.Decl == nil || root.Decl.Recv == nil || len(root.Decl.Recv.List[0].Names) != 1 {
+				r.Bad(rule, f, construct, c.Pos(), "a memo is written outside a method of its owner")
+				continue
+			}
+			recv, _ := info.ObjectOf(root.Decl.Recv.List[0].Names[0]).(*types.Var)
+			// (1) the map is a field of the receiver itself
+			sel, ok := ast.Unparen(recvOf(c)).(*ast.SelectorExpr)
+			own := ok && core.VarOf(info, sel.X) == recv
+			// (2) the key is a parameter of the method
+			var key *types.Var
+			if len(c.Args) >= 1 {
+				if v := core.VarOf(info, c.Args[0]); v != nil && isParamOf(root, v) {
+					key = v
+				}
+			}
+			// (3) the value is (sync.OnceValue of) a function literal returning a call of a method of the receiver on the key
+			computed := false
+			if len(c.Args) >= 2 && key != nil {
+				val, _ := core.Resolve(info, root.Body, c.Args[1])
+				if oc := core.AsCall(info, val, "sync.OnceValue"); oc != nil && len(oc.Args) == 1 {
+					val = oc.Args[0]
+				}
+				if lit, isLit := ast.Unparen(val).(*ast.FuncLit); isLit && len(lit.Body.List) == 1 {
+					if ret, isRet := lit.Body.List[0].(*ast.ReturnStmt); isRet && len(ret.Results) == 1 {
+						if mc, isCall := ast.Unparen(ret.Results[0]).(*ast.CallExpr); isCall && len(mc.Args) == 1 && core.VarOf(info, mc.Args[0]) == key && core.VarOf(info, recvOf(mc)) == recv {
+							computed = true
+						}
+					}
+				}
+			}
+			why := ""
+			switch {
+			case !own:
+				why = "the memo written is not a field of the method's own receiver: a rule fills another rule's memo"
+			case key == nil:
+				why = "the entry is not keyed by the method's own argument"
+			case !computed:
+				why = "the stored value is not (a thunk of) the receiver's own computation on the key"
+			}
+			r.Check(why == "", rule, f, construct, c.Pos(), "own memo, keyed by the argument, value computed by the same rule from the key",
+				why+": what the memo answers for an input then depends on earlier calls (an entry planted for Singularize(\"Men\") by Pluralize(\"MAN\") answers \"MAN\")")
+		}
+	}
+	if n == 0 {
+		r.OK(rule, nil, "no memo is written in pkg/inflector", token.NoPos, "no mutating sync.Map call")
 	}
 }
